@@ -23,7 +23,8 @@ RULE = ("option combinations over 27 parameters (peers: first/local/addrs/urls/t
         "case is distinct by its full option vector, non-trivial when at least 3 optional settings are present")
 ASSUMPTIONS = [
     "clap (third party) decides acceptance and interpretation: established by running the real antnode binary on "
-    "every generated argument list (both builders) and comparing its Debug dump with the intended configuration; "
+    "every generated argument list (both builders), comparing its Debug dump with the intended configuration, and letting "
+    "its real start-up run up to the first bootstrap-cache flush in a scratch HOME to see WHERE key, logs and cache land; "
     "the Coq theorems cover the builders, antnode's regenerated flag/arity/conflict tables and a positional reader",
     "the upgrade options are composed as cmd/node.rs::upgrade composes them (environment: provided or registry-wide; "
     "the auto_restart literal is re-read from the source); cmd/node.rs itself hard-wires the real ServiceController",
@@ -245,6 +246,51 @@ def intended(c, o, port):
     return {k: norm(v) for k, v in want.items()}
 
 
+HARNESS_FILES = {"$B/antnode", "$B/data/antnode1/antnode", "$B/node_registry.json"}
+DEFAULT_CACHE_DIR = "$B/home/.local/share/autonomi/bootstrap_cache/"
+
+
+def effects(c, o, which, r):
+    """arguments whose interpretation is an EFFECT: after antnode's real start-up (root dir + key, logging, first
+    bootstrap-cache flush, HOME inside the scratch dir) every file must be where the definition says"""
+    rec = o["recorded"]
+    p = c["peers"]
+    bad = []
+    files = [f for f in r.get("files", []) if f not in HARNESS_FILES]
+    m = re.search(r'VERIF_EFFECTS root_dir="(.*?)" log_output_dest="(.*?)"', r["dump"])
+    if not m:
+        bad.append("antnode did not reach the end of its start-up effects")
+    elif (m.group(1), m.group(2)) != (rec["data_dir"], rec["log_dir"]):
+        bad.append("antnode uses root dir %r / log destination %r, the definition says %r / %r"
+                   % (m.group(1), m.group(2), rec["data_dir"], rec["log_dir"]))
+    keys = [f for f in files if f.endswith("/secret-key")]
+    if keys != [rec["data_dir"] + "/secret-key"]:
+        bad.append("node key file(s) %s, expected only %s/secret-key" % (keys, rec["data_dir"]))
+    logs = [f for f in files if f.endswith(".log")]
+    if not logs or any(not f.startswith(rec["log_dir"] + "/") for f in logs):
+        bad.append("log file(s) %s, expected under %s/" % (logs, rec["log_dir"]))
+    caches = [f for f in files if re.search(r"/bootstrap_cache[^/]*\.json$", f)]
+    want_dir = (p["cache_dir"] + "/") if p["cache_dir"] else DEFAULT_CACHE_DIR
+    # a local-mode node does not flush (a local genesis node still writes its empty cache once); whatever is
+    # written has to be in the intended directory, and a non-local node must have written its cache there
+    misplaced = [f for f in caches if not f.startswith(want_dir) or "/" in f[len(want_dir):]]
+    if misplaced or len(caches) > 1 or (not p["local"] and len(caches) != 1):
+        bad.append("bootstrap cache file(s) %s, expected %s directly under %s"
+                   % (caches, "at most one" if p["local"] else "exactly one", want_dir))
+    other = [f for f in files if f not in keys and f not in logs and f not in caches]
+    if other:
+        bad.append("unexpected file(s) %s" % other)
+    net = re.search(r"^EVM network: (\w+)", r["dump"], re.M)
+    want_net = "Custom" if isinstance(rec["evm"], dict) else {"evm-arbitrum-one": "ArbitrumOne", "evm-arbitrum-sepolia": "ArbitrumSepolia"}[rec["evm"]]
+    if not net or net.group(1) != want_net:
+        bad.append("effective EVM network %s, intended %s" % (net.group(1) if net else None, want_net))
+    elif want_net == "Custom":
+        low = r["dump"].lower()
+        if rec["evm"]["token"].lower() not in low or rec["evm"]["payments"].lower() not in low:
+            bad.append("effective custom EVM network does not carry the configured contract addresses")
+    return [("effect-at-intended-location", "%s-time arguments: %s" % (which, "; ".join(bad)))] if bad else []
+
+
 def pairs(args):
     """flag/value pairs of a token list up to the sub-command, by antnode's own reading order-insensitively"""
     return sorted(args)
@@ -298,6 +344,10 @@ def oracle(c, o):
             bad = {k: (got[k], w) for k, w in want.items() if k in got and got[k] != w}
             if bad:
                 v.append(("misinterpreted", "antnode reads the %s-time arguments differently from the configuration: %s" % (which, bad)))
+        for which in ("install", "upgrade"):
+            r = an[which]
+            if r["code"] == 0:
+                v += effects(c, o, which, r)
         if an["install"]["code"] == 0 and an["upgrade"]["code"] == 0 and c["observed_port"] is None \
                 and an["install"]["dump"] != an["upgrade"]["dump"]:
             v.append(("interpretations-differ", "antnode parses the install-time and upgrade-time arguments to different options"))
